@@ -310,6 +310,20 @@ pub fn run(ctx: &Ctx) -> i32 {
           }
         }
       }
+      // larger delta_depth on a thinned subset (output of 4 * 2^delta cells)
+      if d == 10 || d == 20 || (!quick && (d == 7 || d == 15)) {
+        for &h in cells.iter().step_by(17) {
+          for delta in [5u8, 8] {
+            if d + delta > 29 {
+              continue;
+            }
+            part.stratum("border-class-cells-large-delta", 1, 22);
+            if let Some(v) = check(d, h, delta, (h + delta as u64) % 2 == 0, &mut part) {
+              part.viol(v);
+            }
+          }
+        }
+      }
       if d == 26 {
         let h = cells[cells.len() / 2];
         part.sample(json!({"depth": d, "hash": h.to_string(), "delta_depth": 3, "external_edge_sorted": format!("{:?}", guarded(|| nested::external_edge_sorted(d, h, 3)).map(|v| v.len()))}));
